@@ -44,19 +44,27 @@ where
 
       source.inner_subscribe(sctl.new_observer(
         move |_, x| {
-          let mut n = n.write().unwrap();
-          if *n == 0 {
-            sctl_next.sink_next(sbj_next.read().unwrap().observable());
-            sbj_next.read().unwrap().next(x);
+          // decide under the locks (does this item open a window? does it fill it?), emit after
+          // they are released: subscribers of the window may call back into the pipeline
+          let (open, window, close) = {
+            let mut n = n.write().unwrap();
+            let mut sbj = sbj_next.write().unwrap();
+            let open = *n == 0;
+            let window = sbj.clone();
             *n += 1;
-          } else {
-            sbj_next.read().unwrap().next(x);
-            *n += 1;
-            if *n == count {
-              sbj_next.read().unwrap().complete();
-              *sbj_next.write().unwrap() = subjects::Subject::<Item>::new();
+            let close = *n == count;
+            if close {
+              *sbj = subjects::Subject::<Item>::new();
               *n = 0;
             }
+            (open, window, close)
+          };
+          if open {
+            sctl_next.sink_next(window.observable());
+          }
+          window.next(x);
+          if close {
+            window.complete();
           }
         },
         move |_, e| {
